@@ -518,8 +518,12 @@ class Result:
         ev['coverage']['known_findings_seen'] = sorted(seen_known)
         if not ev['coverage']['samples']:
             ev['coverage']['samples'] = ['(no correspondence cases on this run)']
-        os.makedirs(os.path.join(VERIF, 'evidence'), exist_ok=True)
-        with open(os.path.join(VERIF, 'evidence', self.pid + '.json'), 'w') as fh:
+        # evidence/ describes runs on /repo itself; a run against a scratch copy (VERIF_REPO=...) of
+        # a mutated tree must never overwrite it
+        evdir = 'evidence' if os.path.realpath(REPO) == '/repo' else 'evidence_scratch'
+        ev['repo'] = REPO
+        os.makedirs(os.path.join(VERIF, evdir), exist_ok=True)
+        with open(os.path.join(VERIF, evdir, self.pid + '.json'), 'w') as fh:
             json.dump(ev, fh, indent=1, sort_keys=True, default=str)
             fh.write('\n')
         for ln in lines:
